@@ -6,7 +6,7 @@ import RV.Base.Proto
     row c1 c2 …           -> ok            (one pattern solution; cell = term token or `-`)
     q <query tokens>      -> v1,v2#row;row;…   (evalQuery on the stored solutions; row = cells joined by `,`)
   term tokens:  I.<dt>.<int>  D.<m>.<s>  F.<dt>.<m>.<s>  B.0|1  S.<cps>.<langcps>  U.<cps>  N.<cps>   (cps = code points joined by `_`)
-  query tokens: mod(N|D|R) offset(n|-) limit(n|-) nuser  (-| k g1…gk)  nproj (pv v | pe v E)…  (0 | 1 E)  nord ((A|D) E)…
+  query tokens: mod(N|D|R) offset(n|-) limit(n|-) nuser  (-| k (gv i | ga i E)…)  nproj (pv v | pe v E)…  (0 | 1 E)  nord ((A|D) E)…
   E: v i | c term | + E E | - E E | cmp (lt|gt|eq|ne|le|ge) E E | agg kind d(0|1) sep(-|s<cps>) (* | E)
   answer cells: Q.<dt>.<num>.<den>  B.0|1  S.<cps>.<langcps>  U.<cps>  N.<cps>  -
 -/
@@ -106,6 +106,20 @@ def takeNats : Nat → List String → Option (List Nat × List String)
     pure (x :: xs, r)
   | _, [] => none
 
+/-- GROUP BY conditions: `gv i` (variable) or `ga i E` (`(E AS ?i)`) -/
+def parseGroup (fuel : Nat) : Nat → List String → Option ((List Nat × List (Nat × Expr)) × List String)
+  | 0, ts => some (([], []), ts)
+  | n + 1, "gv" :: v :: ts => do
+    let v ← v.toNat?
+    let ((ks, gas), r) ← parseGroup fuel n ts
+    pure ((v :: ks, gas), r)
+  | n + 1, "ga" :: v :: ts => do
+    let v ← v.toNat?
+    let (e, r1) ← parseE fuel ts
+    let ((ks, gas), r) ← parseGroup fuel n r1
+    pure ((v :: ks, (v, e) :: gas), r)
+  | _, _ => none
+
 def parseProj (fuel : Nat) : Nat → List String → Option (List Proj × List String)
   | 0, ts => some ([], ts)
   | n + 1, "pv" :: v :: ts => do
@@ -136,12 +150,12 @@ def parseQuery (ts : List String) : Option Query := do
     let off ← optNat'? off
     let lim ← optNat'? lim
     let nuser ← nuser.toNat?
-    let (group, r1) ← (match rest with
-      | "-" :: r => some (none, r)
+    let ((group, groupAs), r1) ← (match rest with
+      | "-" :: r => some ((none, []), r)
       | k :: r => do
         let k ← k.toNat?
-        let (gs, r') ← takeNats k r
-        pure (some gs, r')
+        let ((gs, gas), r') ← parseGroup fuel k r
+        pure ((some gs, gas), r')
       | [] => none)
     match r1 with
     | np :: r2 =>
@@ -158,7 +172,7 @@ def parseQuery (ts : List String) : Option Query := do
         let no ← no.toNat?
         let (order, r6) ← parseOrder fuel no r5
         if r6 ≠ [] then none else
-        pure { nuser := nuser, group := group, proj := proj, having := having, order := order,
+        pure { nuser := nuser, groupAs := groupAs, group := group, proj := proj, having := having, order := order,
                modifier := modifier, offset := off, limit := lim }
       | [] => none
     | [] => none
